@@ -1320,7 +1320,7 @@ theorem blazePos_mem (im : Inc) (nr nc : Nat) (rp cp : List Nat) (o : BlazeOut)
 
 theorem idAt_map (f : Int → Int) (ids : List Int) {i : Nat} (hi : i < ids.length) :
     idAt (ids.map f) i = f (idAt ids i) := by
-  simp [idAt, List.getD_eq_getElem?_getD, List.getElem?_eq_getElem hi, hi]
+  simp [idAt, List.getD_eq_getElem?_getD, hi]
 
 theorem labelBlock_map (f g : Int → Int) (eids qids : List Int) (b : Block)
     (hr : ∀ r ∈ b.1, r < eids.length) (hc : ∀ c ∈ b.2, c < qids.length) :
